@@ -11,7 +11,7 @@ import os
 
 import numpy as np
 
-from ..kernel import adigest, sdigest, HarnessBug
+from ..kernel import adigest, sdigest, HarnessBug, scribble
 from ..refs import rectab as T
 from .. import present
 from .recplan import plan, simplify, describe  # noqa: F401  (engine interface)
@@ -590,6 +590,8 @@ def op_read(w, op, mods):
             check_header(w, m, hdr, "rec.read.header", feats)
     if hdr is not None:
         _scribble(w, hdr)
+    if scribble(got):
+        run.fault("caller_edited_a_result_in_place")
 
 
 def op_header(w, op, mods):
@@ -1339,6 +1341,8 @@ def op_hread(w, op, mods):
         if d:
             run.fail("rec.readback.handle", _feat(m, kind=h["kind"] if h else entry, mode=h["mode"] if h else ""),
                      "reading back through the %s handle after %d writes: %s" % (h["mode"] if h else "", h.get("writes", 0) if h else 0, d))
+    if scribble(got):
+        run.fault("caller_edited_a_result_in_place")
 
 
 def _sel_str(sel):
